@@ -61,6 +61,10 @@ func (w *World) foldRound(overlay map[string][]byte, st *foldState) map[string][
 			if strings.HasSuffix(fname, "_test.go") {
 				continue
 			}
+			if b, n := elimPointerAliases(w.Fset, p.TypesInfo, f); n > 0 {
+				out[fname] = b
+				continue
+			}
 			if b, n := sroaLocals(w.Fset, p.TypesInfo, f); n > 0 {
 				out[fname] = b
 				foldNotes = append(foldNotes, fmt.Sprintf("struct locals: %d local(s) of struct type in %s that are only used field by field are read as one variable per field", n, strings.TrimPrefix(fname, w.Repo+"/")))
